@@ -42,7 +42,15 @@ var (
 	pyClassConv = regexp.MustCompile(`(?m)^class (\w+)Converter\(`)
 	pyFieldConv = regexp.MustCompile(`(?m)^        self\._\w+_converter = (.+)$`)
 	pyStepConv  = regexp.MustCompile(`(?m)^        converter = (.+)$`)
+	// one keyword argument per field of the record constructor call in from_json
+	pyFromJsonField = regexp.MustCompile(`(?m)^            (\w+)=self\._\w+_converter\.from_json\((.+?),?\),$`)
 )
+
+// pyFieldHandling: how generated Python NDJSON code treats one record field ("yes", "no", "conditional").
+type pyFieldHandling struct {
+	readerGet       string // reader takes the field with json_object.get(...): absence tolerated
+	writerSkipsNull string // writer emits the field only when it is not None
+}
 
 type c14UnionWant struct {
 	simple    bool
@@ -300,6 +308,7 @@ func checkC14(c C14Case) *Fail {
 		pySrc, _ := os.ReadFile(filepath.Join(pyDir, "binary.py"))
 		pyJsonSrc, _ := os.ReadFile(filepath.Join(pyDir, "ndjson.py"))
 		pyJsonRecords := map[string][]string{}
+		pyJsonHandling := map[string][]pyFieldHandling{}
 		{
 			idx := pyClassConv.FindAllStringSubmatchIndex(string(pyJsonSrc), -1)
 			for i, m := range idx {
@@ -316,6 +325,56 @@ func checkC14(c C14Case) *Fail {
 					list = append(list, fm[1])
 				}
 				pyJsonRecords[string(pyJsonSrc[m[2]:m[3]])] = list
+				// how the record reader and writer treat each field: tolerated when absent / skipped when null
+				full := string(pyJsonSrc[m[0]:end])
+				var hs []pyFieldHandling
+				if i0 := strings.Index(full, "    def from_json(self"); i0 >= 0 {
+					fj := full[i0:]
+					if i1 := strings.Index(fj[10:], "\n    def "); i1 >= 0 {
+						fj = fj[:i1+10]
+					}
+					for _, fm := range pyFromJsonField.FindAllStringSubmatch(fj, -1) {
+						h := pyFieldHandling{readerGet: "no"}
+						switch {
+						case strings.Contains(fm[2], "_supports_none"):
+							h.readerGet = "conditional"
+						case strings.HasPrefix(fm[2], "json_object.get("):
+							h.readerGet = "yes"
+						}
+						hs = append(hs, h)
+					}
+				}
+				if i0 := strings.Index(full, "    def to_json(self"); i0 >= 0 {
+					tj := full[i0:]
+					if i1 := strings.Index(tj[10:], "\n    def "); i1 >= 0 {
+						tj = tj[:i1+10]
+					}
+					lines := strings.Split(tj, "\n")
+					k := 0
+					for li, l := range lines {
+						if !strings.Contains(l, "json_object[\"") || !strings.Contains(l, "] = self._") {
+							continue
+						}
+						guard := "no"
+						if li > 0 && strings.HasPrefix(strings.TrimSpace(lines[li-1]), "if ") {
+							g := lines[li-1]
+							switch {
+							case strings.Contains(g, "_supports_none"):
+								guard = "conditional"
+							case strings.Contains(g, "is not None"):
+								guard = "yes"
+							}
+						}
+						if k < len(hs) {
+							hs[k].writerSkipsNull = guard
+						}
+						k++
+					}
+					if k != len(hs) {
+						hs = nil
+					}
+				}
+				pyJsonHandling[string(pyJsonSrc[m[2]:m[3]])] = hs
 			}
 		}
 		// ---- record serializers
@@ -411,6 +470,26 @@ func checkC14(c C14Case) *Fail {
 					if f := cmpJson(fmt.Sprintf("record %s field #%d (%s)", d.Name, i, d.Fields[i].Name), ref.JsonPlan(env, d.Fields[i].Type), ex); f != nil {
 						return f
 					}
+				}
+				// null handling of fields: "fields are skipped if they are optionals or unions with null and the value is null"
+				if hs := pyJsonHandling[d.Name]; len(hs) == len(d.Fields) {
+					for i, fl := range d.Fields {
+						u := env.Underlying(fl.Type)
+						if u == nil || u.Kind == model.KParam {
+							continue
+						}
+						nullable := u.Kind == model.KOptional || (u.Kind == model.KUnion && u.HasNull())
+						rec.EvalN(1)
+						rec.Class(fmt.Sprintf("ndjson-field-null-handling:nullable=%v", nullable))
+						if nullable && (hs[i].readerGet != "yes" || hs[i].writerSkipsNull != "yes") {
+							return failf("c14", "python-ndjson record %s field %s can be null (type %s) but the generated converter does not treat it as omissible: reader tolerates absence=%s, writer skips null=%s\n%s", d.Name, fl.Name, ref.JsonPlan(env, fl.Type), hs[i].readerGet, hs[i].writerSkipsNull, mtxt)
+						}
+						if !nullable && (hs[i].readerGet == "yes" || hs[i].writerSkipsNull == "yes") {
+							return failf("c14", "python-ndjson record %s field %s cannot be null (type %s) but the generated converter treats it as omissible: reader tolerates absence=%s, writer skips null=%s\n%s", d.Name, fl.Name, ref.JsonPlan(env, fl.Type), hs[i].readerGet, hs[i].writerSkipsNull, mtxt)
+						}
+					}
+				} else if len(pyJsonSrc) > 0 {
+					rec.Class("python-ndjson-field-handling-not-parsed")
 				}
 			} else if len(pyJsonSrc) > 0 {
 				rec.Class("python-ndjson-record-converter-not-found")
